@@ -840,7 +840,6 @@ func (m *Memory) FindLatest(
 	}
 	s := query.Start
 	e := query.End
-	mach := m.Mach
 
 	return m.Match(ctx, func(
 		now *am.TimeIndex, db []*MemoryRecord,
@@ -849,6 +848,7 @@ func (m *Memory) FindLatest(
 		var older *MemoryRecord
 		var ret []*MemoryRecord
 
+	records:
 		for i := len(db) - 1; i >= 0; i-- {
 			if ctx.Err() != nil {
 				return nil
@@ -864,35 +864,35 @@ func (m *Memory) FindLatest(
 			// Active
 			for _, state := range query.Active {
 				if !am.IsActiveTick(r.Time.MTimeTracked[m.Index1(state)]) {
-					continue
+					continue records
 				}
 			}
 			// Activated
 			for _, state := range query.Activated {
 				idx := m.Index1(state)
 				if !am.IsActiveTick(r.Time.MTimeTracked[idx]) {
-					continue
+					continue records
 				}
 				// if has previously been active
 				if older != nil && am.IsActiveTick(older.Time.MTimeTracked[idx]) {
-					continue
+					continue records
 				}
 			}
 			// Inactive
 			for _, state := range query.Inactive {
-				if am.IsActiveTick(r.Time.MTimeTracked[mach.Index1(state)]) {
-					continue
+				if am.IsActiveTick(r.Time.MTimeTracked[m.Index1(state)]) {
+					continue records
 				}
 			}
 			// Deactivated
 			for _, state := range query.Deactivated {
 				idx := m.Index1(state)
 				if am.IsActiveTick(r.Time.MTimeTracked[idx]) {
-					continue
+					continue records
 				}
 				// if has previously been inactive
 				if older != nil && !am.IsActiveTick(older.Time.MTimeTracked[idx]) {
-					continue
+					continue records
 				}
 			}
 			// MTimeStates
